@@ -21,7 +21,7 @@ import (
 
 func main() {
 	log.Root().SetHandler(log.DiscardHandler())
-	r := vk.Start("C08", "model_checking")
+	r := vk.Start("C08", "exploration")
 	if r.ReplayPath != "" {
 		vk.Fatalf("replay: the replay file holds the wire bytes of the base and of the failing case plus the named mutation; feed case_wire to ser.DecodeBytes and call From()")
 	}
